@@ -92,6 +92,7 @@ classes = [
                meth('actFlag', args=['bool']), meth('actPtr', args=['TSource*']), meth('poke')],
         methods=[meth('twice', 'int', ['int']), meth('label', 'QString', [])]),
     cls('TSub', supers=['TSource'], props=[rw('xval', 'int')], signals=chg('xval')),
+    cls('TBroken', supers=['QWidget', 'MissingIface']),       # a QObject class that also inherits a plain C++ interface unknown to the type map
     cls('TOther', supers=['QWidget'], props=[rw('ival', 'int'), rw('val', 'int'), rw('subVal', 'int'), rw('title', 'QString')],
         signals=chg('ival', 'val', 'subVal', 'title')),
 ]
